@@ -162,6 +162,12 @@ def call_builtin(I, name, args, kwargs, env):
     if name == 'sum':
         x = args[0]
         start = args[1] if len(args) > 1 else 0
+        if isinstance(x, XList) and (x.base is not None or x.has_spread()):
+            acc = start
+            for kind, seg in x.segments():
+                part = I.loops.seq_sum(I, seg, 0) if kind == 'pipe' else call_builtin(I, 'sum', [list(seg)], {}, env)
+                acc = I.binop(ast.Add(), acc, part)
+            return acc
         if isinstance(x, SSeq):
             return I.loops.seq_sum(I, x, start)
         items = I.iterate_guarded(x)
